@@ -1,6 +1,7 @@
 package main
 
 import (
+	"sort"
 	"os"
 	"fmt"
 	"go/constant"
@@ -38,6 +39,15 @@ func (fe *FuncEnc) freshResults(st *State, sig *types.Signature, hint string) []
 		out = append(out, t)
 	}
 	return out
+}
+
+func sortedGhostKeys(m map[string]*GhostField) []string {
+	var ks []string
+	for k := range m {
+		ks = append(ks, k)
+	}
+	sort.Strings(ks)
+	return ks
 }
 
 // fieldFuncKey: for a call through a function value loaded from a struct field,
@@ -306,6 +316,22 @@ func (fe *FuncEnc) applyContract(v ssa.Value, contract *FuncContract, sig *types
 			}
 		}
 		fe.havocReachable(st, "call to "+short+" (contract without assigns)", roots)
+		// no write frame: the global ghost variables may change as well (the
+		// callee's own ghost assignments, or those of anything it calls)
+		for _, key := range sortedGhostKeys(fe.eng.cs.Ghosts) {
+			g := fe.eng.cs.Ghosts[key]
+			if g.Type != "$global" {
+				continue
+			}
+			hv := ghostVar(g)
+			srt := arrSort(ghostSort(g))
+			if _, used := fe.heapSorts[hv]; !used {
+				continue
+			}
+			fe.heapGet(st, hv, srt)
+			st.heap[hv] = fe.sc.declare(hv, srt)
+			fe.noteWrite(hv)
+		}
 	} else if !contract.Pure {
 		envPre := fe.calleeEnv(pre, contract, callee, sig, paramNames, args)
 		locs := fe.assignLocs(envPre, contract.Assigns, contract.Where)
